@@ -329,7 +329,9 @@ func runC16(r *simkit.Run, c Cfg) {
 				if call.err != nil {
 					r.Violate("c16.result", "Close returned %v", call.err)
 				}
-			case rcOpDirectA, rcOpDirectB:
+			case rcOpDirectA, rcOpDirectB, rcOpDirectDenied:
+				// (also an announcement from a peer the allow filter rejects:
+				// on a closed receiver it gets the closed error like any other)
 				if wasClosed && !errors.Is(call.err, announce.ErrClosed) {
 					r.Violate("c16.result", "Direct after Close returned %v, want the closed error", call.err)
 				}
